@@ -117,3 +117,34 @@ Proof.
   destruct (multistage_run N ram disk tj c k HN Hram Hdisk Hu Hc) as (o0 & m & ls & E & Hm & Hl & _). exists o0, m, ls. auto.
 Qed.
 Print Assumptions multistage_run_total.
+
+(* C02 / C09: the stream is complete -- EndReverse is emitted within 6 * TC N S + 1 requests, and by then the reference
+   executor has carried out exactly TC N S forward steps *)
+Require Import Flags.
+Theorem multistage_terminates N ram disk tj k : 1 <= N -> 0 <= ram -> 0 <= disk -> (2 <= N -> 1 <= ram + disk) ->
+  let S_ := Z.min (Z.min ram (N - 1) + Z.min disk (N - 1)) (N - 1) in
+  6 * Inst.TC tj N S_ < Z.of_nat k ->
+  exists o0 m ls, run_case (PMulti N ram disk tj) (ms_params N ram disk) (repeat Next k) = Ok (o0, m, ls) /\ mon_ok m /\ no_raise ls /\
+     (exists ob, In (LNext (Yield EndReverse) ob) ls) /\ fwd_total (cnt (mx m)) = Inst.TC tj N S_.
+Proof.
+  intros HN Hram Hdisk Hu S_ Hk. destruct (construct_total N ram disk tj HN Hram Hdisk Hu) as [c Hc].
+  destruct (construct_labels N ram disk tj c HN Hram Hdisk Hc) as (HmaxN & Htr & Hlab & Htot & Hcr & Hcd).
+  unfold run_case, Sched.construct. rewrite Hc. cbn [bind].
+  assert (HN' : 1 <= max_n c) by lia.
+  assert (HS : 2 <= max_n c -> 1 <= total c) by (intros; rewrite Htot; lia).
+  pose proof (multistage_cfg_run c (Z.min ram (N - 1)) (Z.min disk (N - 1)) HN' HS Hlab Hcr Hcd (count_st RAM (labels c)) (count_st DISK (labels c)) k) as Hrun.
+  pose proof (multistage_cfg_terminates c (Z.min ram (N - 1)) (Z.min disk (N - 1)) HN' HS Hlab Hcr Hcd (count_st RAM (labels c)) (count_st DISK (labels c)) k) as Hterm.
+  rewrite Htr, HmaxN, Htot in Hterm. specialize (Hterm Hk).
+  unfold pms, msched in *. rewrite HmaxN in *. unfold ms_params.
+  set (s0 := {| ob := OMulti c init (count_st RAM (labels c)) (count_st DISK (labels c)); started := false |}) in *.
+  assert (HI0 : MsI s0) by (eexists _, _, _, _; split; [reflexivity|intros E; discriminate E]).
+  pose proof (ops_flags_full MsI is_endrev ms_sched_next ms_sched_fin
+               {| xN := N; keep_all_deps := false; budget_ram := Some (Z.min ram (N - 1)); budget_disk := Some (Z.min disk (N - 1)) |}
+               (repeat Next k) s0 mon0 HI0) as Hfl.
+  destruct (run_ops _ s0 mon0 (repeat Next k)) as [[s' m'] ls]. cbn [fst] in Hterm. destruct Hrun as (H1 & H2 & H3). destruct Hfl as [_ Hfl].
+  eexists _, _, _. split; [reflexivity|]. split; [assumption|]. split; [assumption|]. split.
+  - rewrite Hterm in Hfl. change (is_exhausted s0) with false in Hfl. symmetry in Hfl.
+    destruct (seen_after_witness is_endrev ls Hfl) as (a & ob & Hin & Ha). destruct a; try discriminate. exists ob. exact Hin.
+  - rewrite (H3 Hterm), Htr, Htot. reflexivity.
+Qed.
+Print Assumptions multistage_terminates.
